@@ -37,7 +37,7 @@ struct GroupOpts
   int act_n    = 0;      // size of vector the group acts on (0: no action)
 };
 
-template<template<typename> class GT>
+template<template<typename> class GT, bool Hess = false>
 void trace_group(Unit & u, const std::string & pre, const GroupOpts & o)
 {
   using GS            = GT<Sym>;
@@ -113,7 +113,7 @@ void trace_group(Unit & u, const std::string & pre, const GroupOpts & o)
       return out_mat<S>(GT<S>::dl_expinv(as_vec<S, Dof>(in[0])));
     });
   }
-  if (o.hess) {
+  if constexpr (Hess) {
     u.trace(pre + "_d2r_exp", {{"a", Dof, tk}}, [](const auto & in) {
       using S = typename std::decay_t<decltype(in)>::value_type::value_type;
       return out_mat<S>(GT<S>::d2r_exp(as_vec<S, Dof>(in[0])));
